@@ -782,7 +782,7 @@ pub fn run(ctx: &mut Ctx) {
     // the null table in full: null-like texts x styles x {no tag, !!str, !!null, !!int} x every Option / untyped / string target
     for tok in ["", "~", "null", "Null", "NULL", "nUll", "nul", "~~"] {
         for sty in STYLES {
-            for tag in ["", "!!str", "!!null", "!!int"] {
+            for tag in ["", "!!str", "!!null", "!!int", "!!binary"] {
                 for tg in &targets {
                     if matches!(tg, Target::Option(_) | Target::Any | Target::String | Target::Unit) {
                         jobs.push((tok.to_string(), sty, tag, tg.clone(), optvecs[0]));
@@ -866,10 +866,11 @@ pub fn run(ctx: &mut Ctx) {
                 // (any case) and `!!null`; a scalar tagged `!!str` is a string whatever its text; everything else is
                 // Some(what T alone reads)
                 if let Target::Option(inner) = &tg {
-                    if matches!(tag, "" | "!!str" | "!!null") {
+                    if matches!(tag, "" | "!!str" | "!!null" | "!!binary") {
                         let quoted = sc.style == 1 || sc.style == 2;
                         let table = (sc.value.is_empty() && !quoted) || (sc.style == 0 && (sc.value == "~" || sc.value.eq_ignore_ascii_case("null")));
-                        let is_null = tag == "!!null" || (tag != "!!str" && table);
+                        // (`!!binary` with an empty payload is the empty byte string: F79, fixed)
+                        let is_null = tag == "!!null" || (tag != "!!str" && tag != "!!binary" && table);
                         let want = if is_null {
                             SRes::None
                         } else {
